@@ -26,8 +26,13 @@ def linear_rampup(
     time: jax.Array,
     ramp_duration: float | jax.Array,
 ) -> jax.Array:
-    """Linear ramp from 0 to 1 over ``[0, ramp_duration]``, clamped to ``[0, 1]``."""
-    return jnp.clip(time / ramp_duration, 0.0, 1.0)
+    """Linear ramp from 0 to 1 over ``[0, ramp_duration]``, clamped to ``[0, 1]``.
+
+    A non-positive ``ramp_duration`` means "no ramp": the factor is 1 everywhere (instead of ``0 / 0 = nan`` at ``time = 0``).
+    """
+    has_ramp = jnp.asarray(ramp_duration) > 0
+    safe_duration = jnp.where(has_ramp, ramp_duration, 1.0)
+    return jnp.where(has_ramp, jnp.clip(time / safe_duration, 0.0, 1.0), 1.0)
 
 
 def tukey_envelope(
